@@ -1,4 +1,5 @@
 """C07 Pack entry headers — kind<->id tables (TAB), sibling decoder arithmetic signatures, size-by-construction."""
+import re
 from collections import Counter
 from gx import tab
 from gx.flow import Flow
@@ -9,7 +10,7 @@ EXPLANATION = ("For gix-pack entry headers: the kind->type-id table of Header::a
                "must reach an error; the in-memory and streaming header parsers, and leb64/leb64_from_read, must have the same multiset of "
                "(arithmetic/bit operator, constant) pairs, containing the pack format's masks and shifts, and the header writer must use the "
                "complementary constants; Header::size is write_to into io::sink (equal by construction). Round-trip over all widths and delta "
-               "application are value properties and are not decided. A length limit present in one sibling only is tolerated iff its constant is >= 10 (bytes a u64 varint needs).")
+               "application are value properties and are not decided. A length limit present in one sibling only is tolerated iff its constant is >= 10 (bytes a u64 varint needs). delta::apply reads four offset and three size bytes per copy instruction (explicit shifts, or one 4-byte and one 3-byte instantiation of a helper).")
 SPEC = {"Commit": 1, "Tree": 2, "Blob": 3, "Tag": 4, "OfsDelta": 6, "RefDelta": 7}
 ARITH = ("Shl", "Shr", "BitAnd", "BitOr", "BitXor", "Add", "Sub", "Mul", "Ne", "Eq")
 
@@ -19,6 +20,7 @@ def sig(f):
 
 
 def run(db, chk):
+    delta_copy_layout_rule(db, chk)
     a = db.one(r"^gix_pack::data::entry::header::Header::as_type_id$")
     t = tab.enum_to_const(a)
     chk.floor("as_type_id table", len(t), 1)
@@ -84,3 +86,22 @@ def run(db, chk):
     chk.ob("size-is-write-to-sink", "Header::size", ok, "size() must be write_to(io::sink())", "%s:%d" % (sz.file, sz.line), key="size-is-write-to-sink")
     # write_to emits the type id through as_type_id (no second table)
     chk.ob("writer-uses-table", "Header::write_to", bool(wt.calls_to(r"Header::as_type_id$")), "", "%s:%d" % (wt.file, wt.line), key="writer-uses-table")
+
+
+def delta_copy_layout_rule(db, chk):
+    """a copy instruction of git's delta format carries up to FOUR little-endian offset bytes (flag bits 0-3) and up to THREE size bytes (bits
+    4-6).  delta::apply either spells that out (shifts by 8, 16, 24 for the offset and by 8, 16 for the size) or delegates to a helper that
+    is instantiated once for 4 and once for 3 bytes.  With only three offset bytes every copy from beyond 16 MiB of the base is mis-decoded -
+    no fixture has an object that large."""
+    from collections import Counter
+    f = db.one(r"^gix_pack::data::delta::apply$")
+    shl = Counter()
+    for k, v in tab.arith_signature(f, ("Shl",)).items():
+        shl[k[1]] += v
+    direct = shl[8] >= 2 and shl[16] >= 2 and shl[24] >= 1 and shl[32] == 0
+    helpers = [c for c in f.calls() if re.search(r"^gix_pack::data::delta::", c.name) and (c.callee.get("targs") or "").strip().isdigit()]
+    widths = sorted(int(c.callee["targs"]) for c in helpers)
+    generic = widths == [3, 4]
+    chk.ob("delta-copy-has-4-offset-and-3-size-bytes", "delta::apply", direct or generic,
+           "shifts found %s, helper instantiations %s: expected shifts 8/16/24 + 8/16, or one 4-byte and one 3-byte instantiation" % (dict(shl), widths),
+           "%s:%d" % (f.file, f.line), key="delta-copy-layout|apply")
